@@ -351,6 +351,37 @@ theorem rowreader_close_slip_not_exclusive :
 /-- the slip is exactly what `disc` rejects, for every page length and every number of kept rows -/
 example : ∀ nRead nKept, disc (rowReaderProg true false nRead (nKept + 1)) = false := rowReaderSlip_disc
 
+/-- Row readers over VIEWS of row groups (`ConvertRowGroup` with moved columns, nested views): the
+    page in the reader's hand is a chain of wrappers around the decoded page. If every wrapper
+    forwards `ReleaseAndDetachValues` (convert.go:1188-1190), the statement of
+    `rowreader_pool_exclusive` holds for any number of goroutines, any chains, any number of kept rows. -/
+theorem rowreader_views_pool_exclusive (cfg : List (List Bool × Bool × Nat × Nat))
+    (hw : ∀ c ∈ cfg, ∀ w ∈ c.1, w = true) {s : St}
+    (hr : Reach (cfg.map fun c => viewReaderProg c.1 c.2.1 c.2.2.1 c.2.2.2) s) :
+    Exclusive s ∧ PoolQuiet s ∧ PutLast s :=
+  pool_exclusive _ (by
+    intro p hp
+    obtain ⟨c, hc, rfl⟩ := List.mem_map.mp hp
+    exact viewReaderProg_disc _ (hw c hc) _ _ _) hr
+
+example (s : St) (hr : Reach [viewReaderProg [true, true] true 3 5, viewReaderProg [] false 2 0] s) :
+    Exclusive s ∧ PoolQuiet s ∧ PutLast s :=
+  rowreader_views_pool_exclusive [([true, true], true, 3, 5), ([], false, 2, 0)] (by decide) hr
+
+/-- NEGATION for a wrapper that answers `ReleaseAndDetachValues` with a plain `Release` of the page
+    it wraps (seed C15-5a: `convertedPage`), under a wrapper that forwards correctly: the program of
+    such a reader IS the program of a release path that ignores `detach`, so the rows a caller kept
+    point into a buffer that is in the pool and that another goroutine's reader obtains. -/
+theorem rowreader_wrapper_slip_not_exclusive :
+    let slip := viewReaderProg [true, false] true 0 1
+    (∃ s, Reach [slip, slip] s ∧ ¬ PoolQuiet s ∧ ¬ PutLast s) ∧
+    (∃ s, Reach [slip, slip] s ∧ ¬ Exclusive s) :=
+  rowreader_close_slip_not_exclusive
+
+/-- one such wrapper anywhere in a chain is exactly what `disc` rejects -/
+example : ∀ ws, false ∈ ws → ∀ nRead nKept, disc (viewReaderProg ws true nRead (nKept + 1)) = false :=
+  viewReaderSlip_disc
+
 end pool
 
 /-! ## process-wide registries -/
